@@ -263,12 +263,51 @@ Proof.
   simpl. apply obs_of_unchanged.
 Qed.
 
+(** * In every reachable node state
+    The registered contract objects live as long as the process; the guard of an internal entry point decides
+    from the current caller alone, so whatever legitimate (or other) traffic the node has executed before -
+    [h] is ANY list of external calls and cross-invocations, from ANY node state - an external account's call
+    of an internal entry point fails and leaves ledger and node-local memory as they are. *)
+Lemma internal_rejects_reachable body f ns0 h k m S :
+  d_guard_memo f = [] ->
+  find_method (k_contract k) (k_method k) = Some m ->
+  class_of m = Some (Internal S) ->
+  (forall n, defect_of m = Some n -> memN n (d_unguarded f) = false) ->
+  let ns := run_ncalls body f ns0 h in
+  exists e, invoke_n body f ns {| nc_call := k; nc_from := None |} = (Fail e, ns).
+Proof.
+  intros Hm Hf Hk Hd ns. unfold invoke_n. cbn [nc_call nc_from]. rewrite Hf.
+  destruct (dispatchable f m); cbn [negb]; [|eauto].
+  destruct (args_ok (m_params m) (k_args k)); cbn [negb]; [|eauto].
+  rewrite Hm. cbn [mem_str existsb andb orb].
+  rewrite (effective_guard_guarded f m (Internal S) (k_caller k) (classified_of_find _ _ _ Hf) Hk eq_refl Hd).
+  cbn [allowed negb orb]. eauto.
+Qed.
+
+(** the same for every guarded class and a caller it does not allow *)
+Lemma privileged_rejects_reachable body f ns0 h k m c :
+  d_guard_memo f = [] ->
+  find_method (k_contract k) (k_method k) = Some m ->
+  class_of m = Some c -> guarded c = true ->
+  (forall n, defect_of m = Some n -> memN n (d_unguarded f) = false) ->
+  allowed c (k_caller k) = false ->
+  let ns := run_ncalls body f ns0 h in
+  exists e, invoke_n body f ns {| nc_call := k; nc_from := None |} = (Fail e, ns).
+Proof.
+  intros Hm Hf Hk Hg Hd Ha ns. unfold invoke_n. cbn [nc_call nc_from]. rewrite Hf.
+  destruct (dispatchable f m); cbn [negb]; [|eauto].
+  destruct (args_ok (m_params m) (k_args k)); cbn [negb]; [|eauto].
+  rewrite Hm. cbn [mem_str existsb andb orb].
+  rewrite (effective_guard_guarded f m c (k_caller k) (classified_of_find _ _ _ Hf) Hk Hg Hd), Ha.
+  cbn [negb orb]. eauto.
+Qed.
+
 (** * Refutations on the faithful model (flags on) and non-vacuity *)
 Definition outsider : caller := {| x_id := 1; x_admin := false; x_self := false |}.
 Definition admin : caller := {| x_id := 2; x_admin := true; x_self := false |}.
 Definition mk (c n : string) (a : list wkind) (x : caller) (au : bool) : call :=
   {| k_contract := c; k_method := n; k_args := a; k_caller := x; k_audit := au |}.
-Definition only (n : N) : cfg := {| d_dispatch_all := false; d_add_unjournaled := false; d_unguarded := [n] |}.
+Definition only (n : N) : cfg := {| d_dispatch_all := false; d_add_unjournaled := false; d_unguarded := [n]; d_guard_memo := [] |}.
 
 (** the promoted Stub.Add: the call fails and yet the write stays *)
 Lemma stub_add_refuted :
@@ -300,6 +339,22 @@ Definition unguarded_calls : list (N * call) :=
    (15, mk "InterBroker" "InvokeInterchain" [WBytes] outsider false);
    (16, mk "InterBroker" "InvokeReceipt" [WBytes] outsider false);
    (17, mk "ServiceRegistry" "Manage" [WString; WString; WString; WString; WBytes] outsider false)]%N.
+
+(** a caller check that memoizes its success in the process-wide contract object: on a fresh node the
+    outsider is rejected; after ONE legitimate cross-invocation from the interchain contract (an ordinary
+    accepted request) the same call of the same outsider is accepted *)
+Definition memo_cfg : cfg := {| d_dispatch_all := false; d_add_unjournaled := false; d_unguarded := []; d_guard_memo := ["TransactionManager"] |}.
+Definition ns_fresh : nstate := {| n_led := []; n_memo := [] |}.
+Definition legit_begin : ncall :=
+  {| nc_call := mk "TransactionManager" "Begin" [WString; WU64; WBool] outsider false; nc_from := Some "InterchainContractAddr" |}.
+Definition forged_report : ncall :=
+  {| nc_call := mk "TransactionManager" "Report" [WString; WI32] outsider false; nc_from := None |}.
+
+Lemma guard_memo_refuted :
+  fst (invoke_n std_body memo_cfg ns_fresh forged_report) = Fail E_NO_PERMISSION /\
+  fst (invoke_n std_body memo_cfg (run_ncalls std_body memo_cfg ns_fresh [legit_begin]) forged_report) = Ok /\
+  fst (invoke_n std_body cfg_fixed (run_ncalls std_body cfg_fixed ns_fresh [legit_begin]) forged_report) = Fail E_NO_PERMISSION.
+Proof. vm_compute. repeat split; reflexivity. Qed.
 
 (** the listed defects that are still present in the generated table: [Defect] rows whose method has no guard *)
 Definition open_defects : list N :=
